@@ -265,6 +265,38 @@ def t_relabel_all(net, how):
     return n2, M
 
 
+def t_rowperm_all(net):
+    n2 = copy.deepcopy(net)
+    for table in ["bus"] + RES_TABLES:
+        if len(net[table]) >= 2:
+            n2[table] = n2[table].iloc[::-1]
+    return n2, identity_map(net)
+
+
+def t_split_all(net):
+    """every constant-power load and every sgen split 30/70"""
+    n2, M = copy.deepcopy(net), identity_map(net)
+    for table in ("load", "sgen"):
+        for idx in net[table].index:
+            if table == "load" and _is_zip(net, idx):
+                continue
+            p, q = float(net[table].at[idx, "p_mw"]), float(net[table].at[idx, "q_mvar"])
+            ni = _append_row_copy(n2, table, idx, p_mw=p * 0.7, q_mvar=q * 0.7)
+            n2[table].at[idx, "p_mw"] = p * 0.3
+            n2[table].at[idx, "q_mvar"] = q * 0.3
+            M["el"][table][int(idx)] = [(table, int(idx), False), (table, ni, False)]
+    return n2, M
+
+
+def t_swap_all(net):
+    n2, M = copy.deepcopy(net), identity_map(net)
+    for idx in net.line.index:
+        f, t = n2.line.at[idx, "from_bus"], n2.line.at[idx, "to_bus"]
+        n2.line.at[idx, "from_bus"], n2.line.at[idx, "to_bus"] = t, f
+        M["el"]["line"][int(idx)] = [("line", int(idx), True)]
+    return n2, M
+
+
 def t_rowperm(net, table, how):
     n2 = copy.deepcopy(net)
     n = len(net[table])
@@ -518,6 +550,26 @@ def enum_transforms(net, tier, hot):
     return T
 
 
+def enum_composite(net, hot):
+    """the small set used for the k=2 networks of the thorough tier: every transformation kind once, applied to all
+    of its targets at the same time (bus splits: the bus elements of each collision bus, and each single terminal)"""
+    T = [["sn"], ["relabel_all", "gap"], ["relabel_all", "gapperm"], ["rowperm_all"], ["split_all"], ["swap_all"]]
+    for i in net.line.index:
+        if int(net.line.at[i, "parallel"]) > 1:
+            T.append(["unparallel", int(i)])
+    for what in ADD_CORE:
+        if what in NEED_OTHER and not any(b2 != hot[0] and net.bus.at[b2, "vn_kv"] == net.bus.at[hot[0], "vn_kv"]
+                                          for b2 in net.bus.index):
+            continue
+        T.append(["add", what, int(hot[0])])
+    for b in hot:
+        terms = terminals(net, b)
+        be = [t for t in terms if t[0] not in ("line", "trafo", "trafo3w", "impedance", "dcline")]
+        for sel in ([be] if be else []) + [[t] for t in terms] + [terms]:
+            T.append(["splitbus", int(b), sel, "old_new"])
+    return T
+
+
 def level_applies(level, opt, case_opts, tier):
     if tier != "quick" or level == 0:
         return True
@@ -553,4 +605,10 @@ def apply_transform(net, tf):
         return t_splitbus(net, tf[1], [tuple(x) for x in tf[2]], tf[3])
     if k == "id":
         return copy.deepcopy(net), identity_map(net)
+    if k == "rowperm_all":
+        return t_rowperm_all(net)
+    if k == "split_all":
+        return t_split_all(net)
+    if k == "swap_all":
+        return t_swap_all(net)
     raise ValueError("unknown transformation %r" % (tf,))
